@@ -218,7 +218,7 @@ def _excess(diff) -> str:
 
 
 def _spec_loop(ctx: Ctx, fn: pf.FuncDef, lists: Set[str], what: str):
-    loops = [n for n in fn.body if isinstance(n, ast.For) and any(isinstance(c, ast.Call) and isinstance(c.func, ast.Attribute) and c.func.attr == 'append'
+    loops = [n for n in fn.body if isinstance(n, ast.For) and any(isinstance(c, ast.Call) and isinstance(c.func, ast.Attribute) and c.func.attr in ('append', 'extend')
                                                                     and isinstance(c.func.value, ast.Name) and c.func.value.id in lists for c in ast.walk(n))]
     ctx.need(len(loops) == 1 and isinstance(loops[0].target, ast.Name) and not loops[0].orelse, f'{what}: the per-job loop that fills {sorted(lists)} was not recognised')
     return loops[0]
@@ -727,16 +727,23 @@ def r3(ctx: Ctx) -> None:
     ctx.check(bool(rc_ok), 'R3', 'sql::commit_batch_update::refusal', 'a wrong job count rolls back but answers with rc = 0: the front end takes the commit for done', r.file, r.line)
     m = pf.load(FE)
     fn = m.func('_commit_update')
-    calls = [n_ for n_ in ast.walk(fn) if isinstance(n_, ast.Call) and isinstance(n_.func, ast.Attribute) and n_.func.attr.endswith('call_procedure') and n_.args
-             and 'commit_batch_update' in (pf.const_str(n_.args[0]) or sf._sql_of_expr(fn, n_.args[0])[0] or '')]
+    calls = [e.call for e in sf.embedded_in(m) if e.fn is fn and any(st.kind == 'call' and st.name.lower() == 'commit_batch_update' for st in e.stmts())]
     ctx.need(calls, f'{FE}::_commit_update: the CALL of commit_batch_update was not found')
     uses_check = all(c.func.attr == 'check_call_procedure' for c in calls)
     if not uses_check:
-        # the rc may be tested by hand
-        tested = any(isinstance(x, ast.Subscript) and pf.const_str(x.slice) == 'rc' for x in ast.walk(fn))
-        ctx.need(not tested, f'{FE}::_commit_update: the result of commit_batch_update is read with {calls[0].func.attr} and its rc is looked at by hand: not analysed')
-    ctx.check(uses_check, 'R3', f'{FE}::_commit_update::rc checked', f'the front end calls commit_batch_update through {calls[0].func.attr} and never looks at its rc (check_call_procedure raises on rc != 0): '
-              'a refused commit is reported as done', m.path, fn.lineno)
+        # the rc may be tested by hand: only when the result of the call is bound to a name
+        par = m.parents()
+        for c in calls:
+            if c.func.attr == 'check_call_procedure':
+                continue
+            up = par.get(c)
+            while isinstance(up, (ast.Await,)):
+                up = par.get(up)
+            bound = up.targets[0].id if isinstance(up, ast.Assign) and len(up.targets) == 1 and isinstance(up.targets[0], ast.Name) else None
+            if bound is not None or not isinstance(up, ast.Expr):
+                raise AnalysisError(f'{FE}::_commit_update: the result of commit_batch_update is read with {c.func.attr} and kept (`{pf.nsrc(up)[:60]}`): whether its rc is looked at is not analysed')
+    ctx.check(uses_check, 'R3', f'{FE}::_commit_update::rc checked', f'the front end calls commit_batch_update through {[c.func.attr for c in calls if c.func.attr != "check_call_procedure"][:1]} and discards the result: '
+              'its rc is never looked at (check_call_procedure raises on rc != 0), a refused commit is reported as done', m.path, fn.lineno)
     # INFO: rc mismatch
     for n_ in ast.walk(fn):
         if isinstance(n_, ast.Compare) and "e.rv['rc']" in pf.nsrc(n_.left):
@@ -883,7 +890,9 @@ def r6(ctx: Ctx) -> None:
               'waits forever', m.path, stage_e[0].lineno)
     # one staged job per spec
     outer = m.func('_create_jobs')
-    loops = [n for n in outer.body if isinstance(n, ast.For) and any(isinstance(c, ast.Call) and pf.dotted(c.func) == 'jobs_args.append' for c in ast.walk(n))]
+    jl_ = [k for k, v_ in _insert_sinks(ctx, m).items() if v_[0] == 'jobs']
+    ctx.need(len(jl_) == 1, f'{FE}::_create_jobs: argument list of INSERT INTO jobs not found')
+    loops = [n for n in outer.body if isinstance(n, ast.For) and any(isinstance(c, ast.Call) and pf.dotted(c.func) in (f'{jl_[0]}.append', f'{jl_[0]}.extend') for c in ast.walk(n))]
     ctx.need(len(loops) == 1, f'{FE}::_create_jobs: per-job loop not found')
     incs = [n for n in ast.walk(loops[0]) if isinstance(n, ast.AugAssign) and isinstance(n.target, ast.Subscript) and pf.const_str(n.target.slice) == 'n_jobs']
     ins, _dup, _uv = sr.insert_colmap(stage_e[1])
@@ -902,20 +911,42 @@ def r6(ctx: Ctx) -> None:
     r = prog.routine('commit_batch_update')
     exp = stg = None
     ev, sv = _count_vars(r)
+
+    locals_ = {p_[1].lower() for p_ in r.ast.params} | {n_.lower() for st_ in sf.all_statements(r.ast.body) if st_.kind == 'declare' for n_ in st_.names}
+
+    def keyed(where: Optional[N], want: Dict[str, str], what: str) -> Tuple[bool, str]:
+        """every conjunct is `col = value`; the wanted equalities are among them.  (ok, missing) - declines on a WHERE that is not a plain conjunction of equalities."""
+        got: Dict[str, str] = {}
+        for c in sf.conjuncts(where):
+            ctx.need(c.kind == 'bin' and c.op in ('=', '<=>') and {c.left.kind, c.right.kind} <= {'col', 'lit'} and 'col' in (c.left.kind, c.right.kind),
+                     f'commit_batch_update: WHERE of the read of {what} has a conjunct `{text(c)[:60]}` that is not a plain equality')
+            def is_local(x: N) -> bool:
+                return x.kind == 'lit' or (x.kind == 'col' and len(x.parts) == 1 and x.parts[0].lower() in locals_)
+            a, b = (c.left, c.right) if is_local(c.right) and not is_local(c.left) else (c.right, c.left)
+            ctx.need(a.kind == 'col' and is_local(b) and not is_local(a), f'commit_batch_update: conjunct `{text(c)[:60]}` of the read of {what} is not <column> = <variable or literal>')
+            got[a.parts[-1].lower()] = text(b).lower()
+        extra = set(got) - set(want)
+        ctx.need(not extra, f'commit_batch_update: the read of {what} is further restricted by {sorted(extra)}: not judged')
+        missing = [f'{k} = {v}' for k, v in want.items() if got.get(k) != v]
+        return not missing, ', '.join(missing)
+    why6 = []
     for st in sf.all_statements(r.ast.body):
         if st.kind == 'select' and st.into and st.frm is not None:
             tabs = [t.lower() for t in sf.table_names(st.frm)]
             for (c, _al), v in zip(st.cols, st.into):
-                if ev is not None and text(v).lower() == ev:
-                    exp = tabs == ['batch_updates'] and c.kind == 'col' and c.parts[-1].lower() == 'n_jobs' and sr.has_eq(st.where, 'batch_id', 'in_batch_id') and sr.has_eq(st.where, 'update_id', 'in_update_id')
-                if sv is not None and text(v).lower() == sv:
+                if ev is not None and text(v).lower() == ev and tabs == ['batch_updates']:
+                    exp, miss = keyed(st.where, {'batch_id': 'in_batch_id', 'update_id': 'in_update_id'}, 'batch_updates.n_jobs')
+                    if not exp:
+                        why6.append(f'the expected count is read from batch_updates without `{miss}`')
+                if sv is not None and text(v).lower() == sv and tabs == ['job_groups_inst_coll_staging']:
                     sums = [n for n in c.walk() if n.kind == 'func' and n.name.upper() == 'SUM' and len(n.args) == 1 and n.args[0].kind == 'col' and n.args[0].parts[-1].lower() == 'n_jobs']
-                    stg = tabs == ['job_groups_inst_coll_staging'] and len(sums) == 1 and sr.has_eq(st.where, 'batch_id', 'in_batch_id') and sr.has_eq(st.where, 'update_id', 'in_update_id') \
-                        and sr.has_eq(st.where, 'job_group_id', '0') and len(sf.conjuncts(st.where)) == 3
+                    ctx.need(len(sums) == 1, 'commit_batch_update: the staged count is not one SUM(n_jobs)')
+                    stg, miss = keyed(st.where, {'batch_id': 'in_batch_id', 'update_id': 'in_update_id', 'job_group_id': '0'}, 'the staged job count')
+                    if not stg:
+                        why6.append(f'the staged count sums job_groups_inst_coll_staging.n_jobs without `{miss}` (every job is staged once per ancestor group: only the root group\'s rows of this update count each job once)')
     ctx.need(exp is not None and stg is not None, 'commit_batch_update: reads of expected_n_jobs / staging_n_jobs not found')
     ctx.check(bool(exp) and bool(stg), 'R6', f'sql::commit_batch_update::compares staged count of the update with its reserved count',
-              'expected_n_jobs is not batch_updates.n_jobs of (in_batch_id, in_update_id), or staging_n_jobs is not SUM(n_jobs) of the root job group\'s staging rows of that update: '
-              'the commit check does not compare the number of delivered jobs with the number reserved', r.file, r.line)
+              '; '.join(why6) + ': the commit check does not compare the number of delivered jobs with the number reserved', r.file, r.line)
 
 
 
